@@ -77,6 +77,52 @@ func checkC12(c *Check) {
 				h := loopHeaderOf(call.Block())
 				outer := h != nil && strings.HasSuffix(Sym(h.Instrs[len(h.Instrs)-1].(*ssa.If).Cond), "< builtin.len(p:reservations))")
 				c.Ob("R2", "status reports one entry per reservation", call.Pos(), outer, "entries are appended inside the per-resource loop")
+				// ... with that reservation's own amounts: the accumulator that is appended starts from zero in every
+				// iteration of the loop over reservations (it is declared inside that loop)
+				if outer {
+					body := loopBlocks(h)
+					elem := sliceLitElem(call.Common().Args[1])
+					var acc *ssa.Alloc
+					if ld, isLd := elem.(*ssa.UnOp); isLd {
+						acc, _ = ld.X.(*ssa.Alloc)
+					}
+					_, isPhi := elem.(*ssa.Phi)
+					switch {
+					case isPhi:
+						// the accumulator lives in registers: it is carried from one reservation to the next iff its chain of
+						// phis / accumulating calls (x = x.Add(..)) reaches a phi at the header of the loop over reservations
+						carried := false
+						seen := map[ssa.Value]bool{}
+						var walk func(v ssa.Value, d int)
+						walk = func(v ssa.Value, d int) {
+							if v == nil || seen[v] || d > 12 {
+								return
+							}
+							seen[v] = true
+							switch x := v.(type) {
+							case *ssa.Phi:
+								if x.Block() == h {
+									carried = true
+								}
+								for _, e := range x.Edges {
+									walk(e, d+1)
+								}
+							case *ssa.Extract:
+								walk(x.Tuple, d+1)
+							case *ssa.Call:
+								if len(x.Call.Args) > 0 && !x.Call.IsInvoke() {
+									walk(x.Call.Args[0], d+1)
+								}
+							}
+						}
+						walk(elem, 0)
+						c.Ob("R2", "the amounts appended for a reservation are accumulated from zero for that reservation", call.Pos(), !carried, "the accumulator is carried over from one reservation to the next: every entry also contains the amounts of the reservations before it, and changes when one of those is released")
+					case acc != nil:
+						c.Ob("R2", "the amounts appended for a reservation are accumulated from zero for that reservation", call.Pos(), body[acc.Block()], "the accumulator '"+acc.Comment+"' is declared outside the loop over reservations: every entry also contains the amounts of the reservations before it, and changes when one of those is released")
+					default:
+						c.Info("R2", "status entry: accumulator form not recognised, per-reservation reset not decided", call.Pos(), "appended value "+short(Sym(call.Common().Args[1])))
+					}
+				}
 			}
 		}
 		c.Ob("R2", "status lists allocated and pending reservations", gs.Pos(), n == 2, "")
@@ -98,6 +144,7 @@ func checkC12(c *Check) {
 		}
 	}
 	c.Ob("R3", "reserve path evaluates the capacity predicate", run.Pos(), ra != nil && grantIf != nil, "")
+	c.commitLevelRoles("R3")
 	// value families of the loop-carried locals
 	resFam := valueFamily(run, func(v ssa.Value) bool {
 		p, ok := v.(*ssa.Parameter)
@@ -679,4 +726,80 @@ func (c *Check) inventoryClientRules(rule string) {
 		}
 		c.Ob(rule, "lookup finds a reservation whatever its deployment status", run.Pos(), okLook, why)
 	}
+}
+
+// commitLevelRoles: the reservation checked against capacity is the request "scaled by the provider's configured commit
+// levels": in the function that builds it, every call of the commit-level helper pairs the level of one resource kind
+// (CPU / Memory / Storage) with the requested quantity of that same kind and stores the result into that same kind,
+// and each of the three kinds is scaled.
+func (c *Check) commitLevelRoles(rule string) {
+	l := c.L
+	fn := l.Func("provider/cluster", "inventoryService", "committedResources")
+	c.Analysed(fnName(fn))
+	seen := map[string]bool{}
+	kindOf := func(s string) string {
+		for _, k := range []string{"CPU", "Memory", "Storage"} {
+			if strings.Contains(s, "Get"+k+"(") || strings.Contains(s, "."+k+".") || strings.HasSuffix(s, "."+k) {
+				return k
+			}
+		}
+		return ""
+	}
+	for _, g := range fnAndClosuresDeep(fn) {
+		for _, call := range callsInOwn(g) {
+			if !strings.HasSuffix(calleeFull(call), "cluster/util.ComputeCommittedResources") {
+				continue
+			}
+			a := call.Common().Args
+			lvl := strings.TrimSuffix(lastField(Sym(a[0])), "CommitLevel")
+			src := kindOf(Sym(a[1]))
+			dst := ""
+			if cv, ok := call.(*ssa.Call); ok {
+				for _, r := range *cv.Referrers() {
+					if st, isS := r.(*ssa.Store); isS {
+						if fa, isFA := st.Addr.(*ssa.FieldAddr); isFA {
+							tn, _ := structFieldOf(fa)
+							for _, k := range []string{"CPU", "Memory", "Storage"} {
+								if strings.HasSuffix(tn, "types."+k) {
+									dst = k
+								}
+							}
+						}
+					}
+				}
+			}
+			seen[lvl] = true
+			ok := lvl != "" && lvl == src && (dst == "" || dst == lvl)
+			c.Ob(rule, "committed "+src+" of a request is scaled by the "+src+" commit level", call.Pos(), ok, "the "+src+" quantity is scaled by the "+lvl+" commit level and booked as "+dst+": reservations are checked against capacity with the wrong amount")
+		}
+	}
+	c.Ob(rule, "all three resource kinds of a request are scaled by their commit level", fn.Pos(), seen["CPU"] && seen["Memory"] && seen["Storage"], "a kind is booked unscaled or scaled by another kind's level")
+}
+
+// sliceLitElem: the single element of a one-element slice literal (the variadic argument of append(xs, v)).
+func sliceLitElem(v ssa.Value) ssa.Value {
+	sl, ok := v.(*ssa.Slice)
+	if !ok {
+		return nil
+	}
+	arr, ok := sl.X.(*ssa.Alloc)
+	if !ok {
+		return nil
+	}
+	var elem ssa.Value
+	n := 0
+	for _, r := range *arr.Referrers() {
+		if ia, ok := r.(*ssa.IndexAddr); ok {
+			for _, rr := range *ia.Referrers() {
+				if st, ok := rr.(*ssa.Store); ok && st.Addr == ssa.Value(ia) {
+					elem = st.Val
+					n++
+				}
+			}
+		}
+	}
+	if n != 1 {
+		return nil
+	}
+	return elem
 }
